@@ -55,6 +55,14 @@ def paths(stmts, env=None, pure_calls=()):
         continue
       if isinstance(st, ast.Pass):
         continue
+      if isinstance(st, (ast.Assign, ast.AugAssign)) and isinstance(st.value, ast.IfExp):
+        # `x = a if c else b` is `if c: x = a` / `else: x = b`
+        def arm(v):
+          c = copy.copy(st)
+          c.value = v
+          return c
+        todo = [ast.If(test=st.value.test, body=[arm(st.value.body)], orelse=[arm(st.value.orelse)])] + todo
+        continue
       if isinstance(st, ast.Assign) and len(st.targets) == 1:
         tgt = st.targets[0]
         if isinstance(tgt, ast.Tuple):
